@@ -64,6 +64,12 @@ def run(ctx):
             ctx.count("generated_program_rejected")
     for k in range(150 if quick else 3000):
         cases.append(("typed-%d" % k, gen_mod.typed_program(L, tab, rng, n_steps=rng.choice([10, 25, 50, 80])).build(L)))
+    idi = gen_mod.heap_idioms(L, tab)
+    if quick:
+        rng.shuffle(idi)
+        idi = idi[:500]
+    cases += idi
+    ctx.cov["idiom_programs"] = len(idi)
     ctx.cov["programs"] = len(cases)
 
     fuel = 2500
